@@ -222,6 +222,8 @@ def _run_shard(args):
                 col.add(case, mod.check(case))
 
             body()
+        elif shard["kind"] == "fuzz":
+            return _run_fuzz_shard(modname, shard, seed, t0)
         else:
             raise HarnessError(f"unknown shard kind {shard['kind']}")
         res = col.result()
@@ -234,6 +236,38 @@ def _run_shard(args):
             "harness_error": f"{type(e).__name__}: {e}",
             "traceback": traceback.format_exc()[-4000:],
         }
+
+
+def _run_fuzz_shard(modname, shard, seed, t0):
+    """coverage-guided shard (cv/harness/fuzz.py) in a subprocess; without atheris the shard is skipped and says so"""
+    import shutil
+    import subprocess
+    import tempfile
+
+    try:
+        import atheris  # noqa: F401
+    except ImportError:
+        return {"shard": shard["name"], "evaluations": 0, "status": {}, "labels": {"fuzz_skipped_no_atheris": 1},
+                "counters": {}, "nontrivial": [], "samples": [], "exhaustive": {}, "findings": {}, "wall_s": 0.0}
+    d = tempfile.mkdtemp(prefix="cvfuzz.")
+    try:
+        path = os.path.join(d, "result.json")
+        p = subprocess.run([sys.executable, "-m", "cv.harness.fuzz", modname, json.dumps(shard), str(seed), path],
+                           stdout=subprocess.DEVNULL, stderr=subprocess.PIPE, text=True)
+        if not os.path.exists(path):
+            raise HarnessError(f"fuzz shard {shard['name']} produced no result (exit {p.returncode}): {p.stderr[-1500:]}")
+        res = json.load(open(path))
+        if not res.get("final") and res["counters"].get("fuzz_execs", 0) + FUZZ_FLUSH < int(shard["runs"]):
+            raise HarnessError(f"fuzz shard {shard['name']} ended early (exit {p.returncode}) after "
+                               f"{res['counters'].get('fuzz_execs')} executions: {p.stderr[-1500:]}")
+        res.pop("final", None)
+        res["wall_s"] = time.time() - t0
+        return res
+    finally:
+        shutil.rmtree(d, ignore_errors=True)
+
+
+FUZZ_FLUSH = 200
 
 
 class _Found(Exception):
